@@ -44,28 +44,39 @@ def _bins():
 
 # ---------- ELF helpers ----------
 def elf_exec_segment(path):
-    """(e_type, p_offset, p_vaddr, p_memsz) of the first executable PT_LOAD of an ELF64/ELF32 little-endian file"""
+    """(e_type, p_offset, p_vaddr, p_memsz) of the first executable PT_LOAD of an ELF64/ELF32 file of either byte order"""
     d = open(path, "rb").read(4096 * 4)
     if d[:4] != b"\x7fELF":
         return None
     is64 = d[4] == 2
+    E = ">" if d[5] == 2 else "<"
     if is64:
-        e_type, = struct.unpack_from("<H", d, 16)
-        e_phoff, = struct.unpack_from("<Q", d, 32)
-        e_phentsize, e_phnum = struct.unpack_from("<HH", d, 54)
+        e_type, = struct.unpack_from(E + "H", d, 16)
+        e_phoff, = struct.unpack_from(E + "Q", d, 32)
+        e_phentsize, e_phnum = struct.unpack_from(E + "HH", d, 54)
     else:
-        e_type, = struct.unpack_from("<H", d, 16)
-        e_phoff, = struct.unpack_from("<I", d, 28)
-        e_phentsize, e_phnum = struct.unpack_from("<HH", d, 42)
+        e_type, = struct.unpack_from(E + "H", d, 16)
+        e_phoff, = struct.unpack_from(E + "I", d, 28)
+        e_phentsize, e_phnum = struct.unpack_from(E + "HH", d, 42)
     for i in range(e_phnum):
         o = e_phoff + i * e_phentsize
         if is64:
-            p_type, p_flags, p_offset, p_vaddr, _, p_filesz, p_memsz, _ = struct.unpack_from("<IIQQQQQQ", d, o)
+            p_type, p_flags, p_offset, p_vaddr, _, p_filesz, p_memsz, _ = struct.unpack_from(E + "IIQQQQQQ", d, o)
         else:
-            p_type, p_offset, p_vaddr, _, p_filesz, p_memsz, p_flags, _ = struct.unpack_from("<IIIIIIII", d, o)
+            p_type, p_offset, p_vaddr, _, p_filesz, p_memsz, p_flags, _ = struct.unpack_from(E + "IIIIIIII", d, o)
         if p_type == 1 and (p_flags & 1):
             return e_type, p_offset, p_vaddr, p_memsz
     return None
+
+
+_clang = []
+
+
+def _have_clang():
+    if not _clang:
+        import shutil as _sh
+        _clang.append(bool(_sh.which("clang") and _sh.which("ld.lld")))
+    return _clang[0]
 
 
 def gen_elf(rng, d, k):
@@ -77,6 +88,20 @@ def gen_elf(rng, d, k):
         asm += [".globl %s" % name, ".type %s, @function" % name, "%s:" % name, "  .byte " + body, ".size %s, .-%s" % (name, name)]
     s, o, exe = [os.path.join(d, "g%d.%s" % (k, e)) for e in ("s", "o", "elf")]
     open(s, "w").write("\n".join(asm) + "\n")
+    # one file in five is built for another machine with clang + lld: big-endian and little-endian AArch64 (the build id of a big-endian file
+    # is read in the file's own byte order by debug_id_for_object)
+    target = rng.choice([None, None, None, None, "aarch64_be-linux-gnu", "aarch64_be-linux-gnu", "aarch64-linux-gnu"]) if _have_clang() else None
+    if target:
+        if subprocess.run(["clang", "--target=" + target, "-c", s, "-o", o], capture_output=True).returncode != 0:
+            return None
+        bid = rng.below(10)
+        opt = ["--build-id=sha1"] if bid < 4 else ["--build-id=none"] if bid < 5 else ["--build-id=0x" + "".join(rng.choice("0123456789abcdef") for _ in range(2 * rng.choice([4, 8, 16, 20])))]
+        args = ["ld.lld", o, "-o", exe, "-e", "_start", "-z", "max-page-size=0x1000"] + opt + rng.choice([[], ["-pie"], ["-pie"]])
+        if subprocess.run(args, capture_output=True).returncode != 0:
+            return None
+        os.remove(s)
+        os.remove(o)
+        return exe
     if subprocess.run(["gcc", "-c", s, "-o", o], capture_output=True).returncode != 0:
         return None
     bid = rng.below(10)
